@@ -316,6 +316,30 @@ func c06Regime(c *Ctx, sc *c06Scanner, T *ssa.Function) {
 				storesOK = true
 			}
 		}
+		// The same provenance decided on SSA values across the call tree (c06Prov), for the shapes in which the list does
+		// not travel as a parameter of its own: bundled with other policy parameters into a struct (by value, by pointer,
+		// as a method receiver, built by a constructor), captured by a closure, or handed on over more than one level.
+		// What is judged is the list the helper really scans (the operand of its prefix test is an element of it) if
+		// that can be told, otherwise what the helper is handed: on every call chain it is the very value read from the
+		// TrustStores field of a trust policy statement — each hop hands on the same value (a parameter is the argument at
+		// EVERY static call site of a function that cannot be called otherwise; a field of a bundle is what was stored into
+		// that field where the bundle was built, the bundle being complete before its first read and never written again).
+		if !storesOK {
+			if lists := c06ScannedLists(G); len(lists) > 0 {
+				storesOK = true
+				for _, l := range lists {
+					if !c06FromPolicyStores(w, G, l) {
+						storesOK = false
+					}
+				}
+			} else {
+				for _, a := range gCall.Call.Args {
+					if c06FromPolicyStores(w, gIn, a) {
+						storesOK = true
+					}
+				}
+			}
+		}
 		c.Evals++
 		c.Check(ok && n > 0 && storesOK, "regime/tsa-enabled-helper", "the tsa-enabled helper answers true only for an element of the statement's trust stores whose type prefix equals \"tsa\"", w.FnPos(G), "true can be returned without a listed tsa store")
 	}
